@@ -80,7 +80,7 @@ theorem Inv.mkCond {g : Ghost} {s : KState ℚ σ} (hi : Inv g s) (all : Bool) (
     Inv g (_root_.mkCond s all ops).1 := by
   rw [mkCond_eq]
   have h1 : Inv g (s.newLabelled { kind := .cond all ops, cbs := some [], out := none }).1 :=
-    hi.newLabelled _ [] rfl (fun p hm => by simp at hm) (fun iv hm => by simp at hm) (fun c hm => by simp at hm)
+    hi.newLabelled_pending _ [] rfl (fun p hm => by simp at hm) (fun iv hm => by simp at hm) (fun c hm => by simp at hm) rfl
   have hev : (s.newLabelled { kind := .cond all ops, cbs := some [], out := none }).1.ev s.events.size =
       { kind := .cond all ops, cbs := some [], out := none, label := s.nlabel + 1 } := by
     rw [KState.ev_newLabelled, if_pos rfl]
@@ -121,7 +121,7 @@ theorem Inv.spawn {g : Ghost} {s : KState ℚ σ} (hi : Inv g s) (self : EvId) (
   simp only [_root_.doCall]
   -- the process event
   have h1 : Inv g (s.newLabelled { kind := .proc, cbs := some [], out := none }).1 :=
-    hi.newLabelled _ [] rfl (fun p hm => by simp at hm) (fun iv hm => by simp at hm) (fun c hm => by simp at hm)
+    hi.newLabelled_pending _ [] rfl (fun p hm => by simp at hm) (fun iv hm => by simp at hm) (fun c hm => by simp at hm) rfl
   have hev1 : ∀ e, (s.newLabelled { kind := .proc, cbs := some [], out := none }).1.ev e =
       if e = s.events.size then { kind := .proc, cbs := some [], out := none, label := s.nlabel + 1 } else s.ev e :=
     fun e => KState.ev_newLabelled s _ e
@@ -187,8 +187,17 @@ theorem Inv.spawn {g : Ghost} {s : KState ℚ σ} (hi : Inv g s) (self : EvId) (
   have hold : ∀ e, e < s.events.size → s3.ev e = s.ev e := by
     intro e he
     rw [hev3, if_neg (Nat.ne_of_lt (Nat.lt_succ_of_lt he)), hev1, if_neg (Nat.ne_of_lt he)]
-  have h3 : Inv g s3 := by
-    refine ⟨h3c, hi.q.keep (fun r => by rw [hr3]) (fun r => by rw [hr3]) ?_, ⟨?_⟩⟩
+  have h3 : InvX (s.events.size + 1) g s3 := by
+    refine ⟨h3c, hi.q.keep (fun r => by rw [hr3]) (fun r => by rw [hr3]) ?_, ⟨?_⟩, ?_⟩
+    rotate_right
+    · refine (hi.s.toX _).transfer (fun q hq => by rw [ha3]; exact hq) ?_
+      intro e he h1' h2'
+      rw [hev3, if_neg he, hev1] at h1' h2'
+      split at h1'
+      · cases h1' rfl
+      · rename_i hne
+        rw [if_neg hne] at h2'
+        exact Or.inl ⟨h1', h2'⟩
     · intro e ho hk
       have hlt : e < s.events.size := by
         apply lt_of_kind
@@ -211,7 +220,7 @@ theorem Inv.spawn {g : Ghost} {s : KState ℚ σ} (hi : Inv g s) (self : EvId) (
         unfold Held at h3' ⊢
         rw [hold t h2']; exact h3'
   -- and its URGENT agenda entry
-  refine h3.schedule _ _ _ ?_ ?_ ?_
+  refine h3.schedule _ _ ?_ ?_ ?_
   · rw [hev3, if_pos rfl]; simp
   · rw [hev3, if_pos rfl]; simp
   · intro b hb
@@ -228,8 +237,8 @@ theorem Inv.doCall {g : Ghost} {s : KState ℚ σ} (hi : Inv g s) (self : EvId) 
   case timeout d v =>
     split
     · exact hi
-    · refine Inv.schedule (hi.newLabelled _ [] rfl (fun p hm => by simp at hm) (fun iv hm => by simp at hm)
-        (fun c hm => by simp at hm)) _ _ _ ?_ ?_ ?_
+    · refine InvX.schedule (hi.newLabelled _ [] rfl (fun p hm => by simp at hm) (fun iv hm => by simp at hm)
+        (fun c hm => by simp at hm)) _ _ ?_ ?_ ?_
       · show ((s.newLabelled _).1.ev s.events.size).out ≠ none
         rw [KState.ev_newLabelled, if_pos rfl]; simp
       · show ((s.newLabelled _).1.ev s.events.size).cbs ≠ none
@@ -237,7 +246,8 @@ theorem Inv.doCall {g : Ghost} {s : KState ℚ σ} (hi : Inv g s) (self : EvId) 
       · intro b hb
         exact Nat.ne_of_lt (hi.c.agenda_lt b hb)
   case event =>
-    exact hi.newLabelled _ [] rfl (fun p hm => by simp at hm) (fun iv hm => by simp at hm) (fun c hm => by simp at hm)
+    exact hi.newLabelled_pending _ [] rfl (fun p hm => by simp at hm) (fun iv hm => by simp at hm)
+      (fun c hm => by simp at hm) rfl
   case succeed e v =>
     split
     · exact hi
